@@ -37,11 +37,17 @@ OPS = [
     {"k": "remove_dir", "path": H("a/b")},
     {"k": "remove_all", "path": H("d")},
     {"k": "rename", "src": H("file"), "dst": H("a/b/moved"), "flags": 0},
+    {"k": "rename", "src": H("file"), "dst": H("a/b/f"), "flags": 1},          # RENAME_NOREPLACE onto an existing file: must fail
+    {"k": "rename", "src": H("file"), "dst": H("a/b/moved2"), "flags": 1},
+    {"k": "rename", "src": H("file"), "dst": H("l/f"), "flags": 2},            # RENAME_EXCHANGE
     {"k": "reopen", "path": H("file"), "flags": O["RDONLY"]},
     {"k": "proc_open", "base": "self", "path": H("status"), "flags": O["RDONLY"]},
     {"k": "proc_open", "base": "thread", "path": H("fd"), "flags": O["PATH"], "follow": True},
     {"k": "proc_readlink", "base": "self", "path": H("cwd")},
 ]
+
+
+EFFECT_CALLS = {"mkdirat", "mknodat", "symlinkat", "linkat", "renameat", "renameat2", "unlinkat"}
 
 
 def outside(snap):
@@ -97,12 +103,15 @@ def run(ck):
             # the fault index counts fallible calls only
             L = sum(1 for e in b["trace"] if e["c"] not in ("gettid", "geteuid", "close") and not (e["c"] == "fcntl" and e.get("cmd") == 1))
             idxs = list(range(L))
+            # the calls that do the work (create / remove / rename): always faulted, with every errno
+            fall = [e for e in b["trace"] if e["c"] not in ("gettid", "geteuid", "close") and not (e["c"] == "fcntl" and e.get("cmd") == 1)]
+            effect = {i for i, e in enumerate(fall) if e["c"] in EFFECT_CALLS or (e["c"] in ("openat", "openat2") and e.get("flags", 0) & O["CREAT"])}
             if not thorough:
                 rng.shuffle(idxs)
-                idxs = sorted(idxs[:max(6, min(len(idxs), 10 if L > 100 else L // 3))])
+                idxs = sorted(set(idxs[:max(6, min(len(idxs), 10 if L > 100 else L // 3))]) | effect)
             errnos = CATALOGUE if thorough else None
             for i in idxs:
-                for e in (errnos or rng.sample(CATALOGUE, 2)):
+                for e in (CATALOGUE if i in effect else (errnos or rng.sample(CATALOGUE, 2))):
                     jid += 1
                     j = dict(bj)
                     j["id"] = jid
